@@ -421,9 +421,18 @@ def replay(behaviours, c, tag, seed):
                 # the process was killed by a signal: the code under test aborted it (a panic in a destructor
                 # while unwinding, say).  That is data, not a tool failure: the run in progress ends with a
                 # `hang` event (the call did not return), the remaining behaviours go to a fresh process.
-                if open_run is None:
-                    raise ToolError("harness killed by signal %d between runs: %s" % (-r.returncode, r.stderr[-1500:]))
                 lc = json.loads(last_call) if last_call else {}
+                if open_run is None:
+                    # the harness writes a run's events when the run is over: the run that was in progress is the
+                    # first behaviour of this batch that has not ended
+                    pending = [(i, b) for i, b in todo if i not in done]
+                    if not pending:
+                        raise ToolError("harness killed by signal %d after its last run: %s" % (-r.returncode, r.stderr[-1500:]))
+                    open_run, beh = pending[0]
+                    g.write(json.dumps(dict(ev="reset", run=open_run, cfg=dict(cancelable=bool(c.get("cancelable")), enabled=bool(c.get("enabled", True)),
+                                                                             ready=bool(c.get("ready", True)), queue=c.get("QCap", 10), stack=c.get("SCap", 10),
+                                                                             ring=c.get("K", 8), foreign=[])), separators=(",", ":")) + "\n")
+                    lc = dict(op="a call of behaviour %d" % open_run, unw=any(st.get("unw") for st in beh["steps"]))
                 who = "process aborted (signal %d) in %s: %s" % (-r.returncode, lc.get("op", "?"), r.stderr.strip().splitlines()[-1][:200] if r.stderr.strip() else "")
                 ev = dict(ev="hang", who=who)
                 if lc.get("unw"):
